@@ -20,9 +20,16 @@ class LoadAfterStorePass(BlockPass):
     """
 
     def find_store_backwards(
-        self, i, ty, stop_on=(ir.FunctionCall, ir.ProcedureCall, ir.Store)
+        self,
+        i,
+        ty,
+        stop_on=(ir.FunctionCall, ir.ProcedureCall, ir.Store, ir.CopyBlob),
     ):
-        """Go back from this instruction to beginning"""
+        """Go back from this instruction to beginning.
+
+        Stop at instructions which may write the memory location (calls,
+        other stores and blob copies).
+        """
         block = i.block
         instructions = block.instructions
         pos = instructions.index(i)
@@ -79,7 +86,13 @@ class LoadAfterStorePass(BlockPass):
             store_prev = self.find_store_backwards(
                 store,
                 store.value.ty,
-                stop_on=(ir.FunctionCall, ir.ProcedureCall, ir.Store, ir.Load),
+                stop_on=(
+                    ir.FunctionCall,
+                    ir.ProcedureCall,
+                    ir.Store,
+                    ir.Load,
+                    ir.CopyBlob,
+                ),
             )
             if store_prev is not None and not store_prev.volatile:
                 store_prev.remove_from_block()
